@@ -1287,8 +1287,8 @@ var ruleC7 = &Rule{
 	Doc: "one recorder per settings key: every (type, name) key under which a retention routine records its applied value (putSetting; the name is resolved to the constants passed at the call sites of the routine) is written by exactly one routine. " +
 		"Two routines sharing a key overwrite each other's record, so each finds a `changed` value on every run and re-issues its ALTERs forever",
 	Run: func(c *Ctx) []Obl {
-		putFn, _ := c.settingsFns()
-		if putFn == nil {
+		api := c.settingsAPIOf()
+		if api.basePut == nil {
 			return []Obl{{Key: "settings write routine", Pos: "-", Status: Undecided, Msg: "anchor not found"}}
 		}
 		type rec struct {
@@ -1297,23 +1297,29 @@ var ruleC7 = &Rule{
 		}
 		keys := map[string][]rec{}
 		for _, fn := range liveModuleFuncs(c, "ctrl") {
+			// a thin forwarding wrapper of the write routine records nothing of its own: its callers do
+			if api.inner[fn] != nil {
+				continue
+			}
 			for _, b := range fn.Blocks {
 				for _, ins := range b.Instrs {
 					call, ok := ins.(*ssa.Call)
-					if !ok || call.Common().StaticCallee() != putFn {
-						continue
-					}
-					sa := stringArgs(call)
-					if len(sa) < 3 {
+					if !ok || call.Common().StaticCallee() == nil || !api.putLike[call.Common().StaticCallee()] {
 						continue
 					}
 					fname := ssaName(fn)
 					if fi := c.funcInfoOf(fn); fi != nil && fn.Parent() == nil {
 						fname = fi.Name()
 					}
-					for _, tp := range c.constsOf(sa[0], 0) {
-						for _, name := range c.constsOf(sa[1], 0) {
+					roles, _ := api.rolesAt(call, 0)
+					for tp := range c.constsOfSym(roles.tp) {
+						for name, n := range c.constsOfSym(roles.name) {
 							keys[tp+"/"+name] = append(keys[tp+"/"+name], rec{fname, call.Pos()})
+							// the same name handed to one routine by two call sites / two rows of its table: two table groups
+							// share the record
+							if n > 1 && name != "?" {
+								keys[tp+"/"+name] = append(keys[tp+"/"+name], rec{fmt.Sprintf("%s (%d table groups)", fname, n), call.Pos()})
+							}
 						}
 					}
 				}
@@ -1337,7 +1343,7 @@ var ruleC7 = &Rule{
 				obls = append(obls, Obl{Key: key, Pos: c.pos(keys[k][0].pos), Status: Undecided, Msg: "setting name is not a constant at the call site"})
 			} else {
 				obls = append(obls, Obl{Key: key, Pos: c.pos(keys[k][len(keys[k])-1].pos), Status: Violation,
-					Msg: fmt.Sprintf("recorded by %v: each routine overwrites the other's value, finds it `changed` on the next run and issues its ALTERs again — running with unchanged configuration is never a no-op", keysOf(fns))})
+					Msg: fmt.Sprintf("recorded by %v: routines / table groups sharing a key overwrite each other's record — with different values each finds it `changed` on every run and issues its ALTERs again, with equal values the second finds the first's record and never alters its own tables", keysOf(fns))})
 			}
 		}
 		return obls
